@@ -206,3 +206,9 @@ def r05e(ctx, repo):
     si = repo.func("model", "TimedCompartment.__setitem__")
     spread = any(isinstance(x, ast.BinOp) and isinstance(x.op, ast.Div) and "shape[0]" in ast.unparse(x.right) for x in own_nodes(si.node))
     ctx.check(spread, "R05e", si, si.node, "initial occupants spread uniformly over the rows", "TimedCompartment.__setitem__ no longer divides the initial occupants by the number of rows")
+
+
+def thorough(ctx):
+    from . import sweeps
+
+    sweeps.discretisation_sweep(ctx, ctx.repo, "R05a")
